@@ -133,6 +133,20 @@ add("C16", "exhaustive enumeration over all odd orders against exact rational ar
     "Interior = whole stencil inside the record (edge behaviour beyond the end-value hold of integer constant shifts is not specified by the property).",
     "DESIGN.md section 6 C16")
 
+add("C14", "schedule-configuration sweep (threads x chunk sizes x repetitions) against a single-thread baseline + Hypothesis RuleBasedStateMachine over analyzer call histories + generated attribute-access permutations",
+    "The same analysis is repeated under drawn (thread count, parallel chunk size) pairs and must reproduce the 1-thread baseline; a state machine interleaves plan(), compute(), "
+    "single-bin requests, thread/chunk changes and attribute reads on one analyzer with invariants on the cached plan, on stored results and against fresh analyses; "
+    "fresh results are read in drawn permutations of all attribute names and compared with the canonical order.",
+    "Only the configuration of the schedule is controlled, not the interleaving: a race needing a specific interleaving may be missed (a lost-update race injected by "
+    "the self-test is caught within the quick budget).",
+    "DESIGN.md section 6 C14")
+add("C15", "property-based testing with metamorphic relations (permutation, invertible re-mixing), differential analytic-vs-numeric solver, and an independent least-squares reference built from pairwise spectra",
+    "For generated q-input systems with known mixing, delays and noise the residual must lie in [0, output], vanish for exact static combinations, be invariant under input "
+    "permutation and re-mixing, agree between the symbolic and the numeric solver and with S00 - s^H A^-1 s recomputed by the harness; for q=1 SISO == MISO == sqrt(Gyy(1-coh)) "
+    "including delayed (complex) couplings.",
+    "Bins with K>q (bounds) / K>=2q+2 (comparisons at 1e-5..1e-6 of the output ASD); q<=3 analytic in the quick tier (sympy cost), 4 in the thorough tier.",
+    "DESIGN.md section 6 C15")
+
 MANIFEST = {
     "version": 1,
     "setup_cmd": "/venv/bin/python -m harness.setup",
